@@ -925,7 +925,7 @@ func (f *fnState) indexAddr(i *ssa.IndexAddr) {
 		f.declared["nonnil:"+loc] = true
 		if !isByte(u.Elem()) {
 			// name the element the way quantified contract clauses do, so that they apply to it
-			f.fact(fmt.Sprintf("(= (elt %s %s) %s)", x.T, idx.T, loc))
+			f.fact(fmt.Sprintf("(= (elt (s-loc %s) %s) %s)", x.T, idx.T, loc))
 		}
 		f.vals[i] = SV{Typ: i.Type(), Sort: sLoc, LV: &LV{Loc: loc, RootT: u.Elem(), Interior: true, Avail: fmt.Sprintf("(- (s-len %s) %s)", x.T, idx.T)}}
 	case *types.Pointer:
